@@ -27,6 +27,10 @@
 (*                 the kind of the named type, output and input position   *)
 (*   SliceTop      schema description, root operation types, custom scalar *)
 (*                 (description, specifiedBy), descriptions per kind       *)
+(*   SliceText     every text class (blanks at line ends, indentation,     *)
+(*                 blank-only lines, backticks, triple quotes, non-BMP,    *)
+(*                 long lines, CR, ...) x every text position (13          *)
+(*                 descriptions, 5 deprecation reasons, 4 string defaults) *)
 (* Big = FALSE is the quick tier, Big = TRUE the thorough tier.            *)
 (* Cross-feature combinations beyond the slices come from the seeded       *)
 (* generator of the harness through Feed_Introspect.                       *)
@@ -218,8 +222,55 @@ SliceTop ==
         d \in [1..5 -> Descs]}
 
 -----------------------------------------------------------------------------
+\* text classes: what a description / deprecation reason / string default is made of matters as soon as
+\* some layer treats schema text byte-wise (blanks at line ends, indentation, blank-only lines, backticks,
+\* triple quotes, non-BMP runes, very long lines, carriage returns, blanks at the end, backslashes).
+\* The symbols are concretised by a representative of the class (harness/c16lib/render.go TextClassPool);
+\* every class is placed at every text position of a schema.
+DescClasses == {"dc_trail", "dc_tabend", "dc_lead", "dc_wsline", "dc_tick", "dc_tq", "dc_nonbmp", "dc_long",
+                "dc_cr", "dc_endsp", "dc_bs"}
+ReasonClasses == {"wc_trail", "wc_tabend", "wc_lead", "wc_wsline", "wc_tick", "wc_tq", "wc_nonbmp", "wc_long",
+                  "wc_cr", "wc_endsp", "wc_bs"}
+StrClasses == {"sc_trail", "sc_tabend", "sc_lead", "sc_wsline", "sc_tick", "sc_tq", "sc_nonbmp", "sc_long",
+               "sc_cr", "sc_endsp", "sc_bs"}
+DescPositions == {"schema", "object", "interface", "union", "enum", "input", "scalar", "field", "arg",
+                  "inputfield", "enumvalue", "directive", "dirarg"}
+ReasonPositions == {"rfield", "rarg", "rinputfield", "renumvalue", "rdirarg"}
+StrPositions == {"sarg", "sinputfield", "sdirarg", "snested"}
+
+TextSchema(p, x) ==
+    LET d(q)  == IF p = q THEN x ELSE ""
+        r(q)  == IF p = q THEN [on |-> "t", reason |-> x] ELSE NoDep
+        sd(q) == IF p = q THEN Lit("str", x) ELSE NoDflt
+    IN [desc |-> d("schema"), query |-> "Query", mutation |-> "", subscription |-> "",
+        types |-> <<
+           [Obj("Query", << [name |-> "f", desc |-> d("field"), type |-> Ref(<<>>, "En"), dep |-> r("rfield"),
+                             args |-> << [name |-> "x", desc |-> d("arg"), type |-> Ref(<<>>, "String"),
+                                          dflt |-> sd("sarg"), dep |-> r("rarg")],
+                                         [name |-> "in", desc |-> "", type |-> Ref(<<>>, "In"),
+                                          dflt |-> IF p = "snested" THEN Ob(<< <<"l", Lst(<<Lit("str", x)>>)>> >>) ELSE NoDflt,
+                                          dep |-> NoDep] >>],
+                            Fld("u", Ref(<<>>, "Un")), Fld("s", Ref(<<>>, "Sc")) >>, <<"If">>) EXCEPT !.desc = d("object")],
+           [Ifc("If", << [name |-> "f", desc |-> "", type |-> Ref(<<>>, "En"), dep |-> NoDep,
+                          args |-> << IV("x", Ref(<<>>, "String")), IV("in", Ref(<<>>, "In")) >>] >>, <<>>)
+               EXCEPT !.desc = d("interface")],
+           [Uni("Un", <<"Query">>) EXCEPT !.desc = d("union")],
+           [Enm("En", << [name |-> "V1", desc |-> d("enumvalue"), dep |-> r("renumvalue")], EV("V2") >>)
+               EXCEPT !.desc = d("enum")],
+           [Inp("In", << [name |-> "a", desc |-> d("inputfield"), type |-> Ref(<<>>, "String"),
+                          dflt |-> sd("sinputfield"), dep |-> r("rinputfield")],
+                         IV("l", Ref(<<"L">>, "String")) >>) EXCEPT !.desc = d("input")],
+           [Sca("Sc", "") EXCEPT !.desc = d("scalar")] >>,
+        dirs |-> << [name |-> "dd", desc |-> d("directive"), rep |-> "f", locs |-> <<"FIELD_DEFINITION">>,
+                     args |-> << [name |-> "x", desc |-> d("dirarg"), type |-> Ref(<<>>, "String"),
+                                  dflt |-> sd("sdirarg"), dep |-> r("rdirarg")] >>] >>]
+
+SliceText == {TextSchema(p, x) : p \in DescPositions, x \in DescClasses}
+             \cup {TextSchema(p, x) : p \in ReasonPositions, x \in ReasonClasses}
+             \cup {TextSchema(p, x) : p \in StrPositions, x \in StrClasses}
+
 MCSchemas == SliceFields \cup SliceInputs \cup SliceEnums \cup SliceRel \cup SliceDirs
-             \cup SliceDflt \cup SliceWrap \cup SliceTop
+             \cup SliceDflt \cup SliceWrap \cup SliceTop \cup SliceText
 
 -----------------------------------------------------------------------------
 \* hiding operations: one or two root selections, introspection enabled or not
@@ -236,9 +287,45 @@ EntriesAt(i) ==
 SecondEntries == IF Big THEN EntriesAt(2)
                  ELSE {e \in EntriesAt(2) : e.via = "direct" /\ e.arg \in {"-", "lit"} /\ e.known = "t"}
 
-MCOps == {o \in {[ext |-> x, entries |-> es] :
-                    x \in {"t", "f"},
-                    es \in {<<e>> : e \in EntriesAt(1)} \cup {<<e1, e2>> : e1 \in EntriesAt(1), e2 \in SecondEntries}} :
-             IsOp(o)}
+\* every hiding shape on the two servers of rounds 1-2: nothing registered / only the extension
+EntrySeqs == {<<e>> : e \in EntriesAt(1)} \cup {<<e1, e2>> : e1 \in EntriesAt(1), e2 \in SecondEntries}
+
+It(k, w) == [k |-> k, w |-> w]
+Intro == It("intro", "f")
+LegacyOps == {[ext |-> x, chain |-> IF x = "t" THEN <<Intro>> ELSE <<>>, entries |-> es] :
+                 x \in {"t", "f"}, es \in EntrySeqs}
+
+\* registration orders: every sequence of at most MaxChain registrations over the alphabet
+\* (extension installed at most once), i.e. user mutators before / after the extension and
+\* guards registered before / after it, each setting, clearing or - for a guard - passing
+Alphabet == {Intro, It("mut", "t"), It("mut", "f"), It("mw", "t"), It("mw", "f"), It("mw", "-")}
+MaxChain == IF Big THEN 4 ELSE 3
+RECURSIVE ChainsOfLen(_)
+ChainsOfLen(k) == IF k = 0 THEN {<<>>} ELSE {<<x>> \o c : x \in Alphabet, c \in ChainsOfLen(k - 1)}
+Chains(n) == {c \in UNION {ChainsOfLen(k) : k \in 0..n} :
+                 Cardinality({i \in 1..Len(c) : c[i].k = "intro"}) <= 1}
+
+\* the shapes every registration order is combined with: each introspection position through
+\* each way of hiding it (alias / variable chosen per way), and three pairs
+ChainEntry(p, v) ==
+    [pos |-> p, via |-> v,
+     key |-> IF v \in {"frag", "inline", "include"} THEN "k1" ELSE p,
+     arg |-> IF p # "__type" THEN "-" ELSE IF v \in {"direct", "nested", "include"} THEN "var" ELSE "lit",
+     known |-> "t"]
+ChainEntrySeqs ==
+    {<<ChainEntry(p, v)>> : p \in IntroPos, v \in Vias}
+    \cup {<< ChainEntry("__schema", "direct"), [ChainEntry("__type", "frag") EXCEPT !.key = "k2"] >>,
+          << [pos |-> "__typename", key |-> "__typename", via |-> "direct", arg |-> "-", known |-> "t"],
+             ChainEntry("__schema", "frag") >>,
+          << [pos |-> "user", key |-> "i", via |-> "direct", arg |-> "-", known |-> "t"],
+             [ChainEntry("__type", "inline") EXCEPT !.arg = "vardflt"] >>}
+
+ChainOps == {[ext |-> IF HasIntro(c) THEN "t" ELSE "f", chain |-> c, entries |-> es] :
+                c \in Chains(MaxChain), es \in ChainEntrySeqs}
+            \cup (IF Big THEN {[ext |-> IF HasIntro(c) THEN "t" ELSE "f", chain |-> c, entries |-> <<e>>] :
+                                  c \in Chains(3), e \in EntriesAt(1)}
+                         ELSE {})
+
+MCOps == {o \in LegacyOps \cup ChainOps : IsOp(o)}
 
 =============================================================================
